@@ -160,7 +160,8 @@ def run(ctx: Ctx):
                      ("text_mutations", lambda: text_mutations(ctx, Time, drv, epochs)),
                      ("decimalyear_extras", lambda: decimalyear_extras(ctx, Time, drv)),
                      ("input_layouts", lambda: input_layouts(ctx, Time, drv, epochs)),
-                     ("leap_second_texts", lambda: leap_second_texts(ctx, Time, drv))):
+                     ("leap_second_texts", lambda: leap_second_texts(ctx, Time, drv)),
+                     ("ambient_state", lambda: ambient_state(ctx, epochs))):
         try:
             fn()
         except common.ToolFailure:
@@ -1027,6 +1028,85 @@ def leap_second_texts(ctx, Time, drv):
                 if mtxt != g:
                     ctx.disagree(f"UTC {f} label of a TAI epoch around a leap second", {"fmt": f, "scale": "tai", "jd1": float(tt.jd1), "jd2": float(tt.jd2)}, mtxt, g)
     ctx.traces += len(days) * 13
+
+
+# -------------------------------------------------------------------------------------------------
+# ambient process state (TZ, locale, hash seed): the slice below is evaluated in child interpreters by harness/ambient.py
+
+
+def _canon(x):
+    if isinstance(x, (float, np.floating)):
+        return float(x).hex()
+    if isinstance(x, datetime):
+        return x.isoformat()
+    if isinstance(x, (tuple, list, np.ndarray)):
+        return [_canon(y) for y in x]
+    return str(x)
+
+
+def ambient_slice(payload):
+    """every format read from an epoch, and a Time constructed from every format value (scalar and list; naive
+    datetimes and texts among them) — as canonical items `[[scale, what, day, us], value]`"""
+    Time = _imp()
+    out = []
+    for scale in payload["scales"]:
+        for d, us in payload["epochs"]:
+            ident = [scale, d, us]
+            dt = DT2000 + timedelta(days=d, microseconds=us)
+            try:
+                t = Time(dt, fmt="datetime", scale=scale)                 # a naive datetime is an epoch of the scale
+                out.append([ident + ["Time(datetime)"], [_canon(t.jd1), _canon(t.jd2)]])
+                tl = Time([dt, dt + timedelta(hours=1)], fmt="datetime", scale=scale)
+                out.append([ident + ["Time([datetime, +1h])"], [_canon(tl.jd1), _canon(tl.jd2)]])
+            except Exception as e:
+                out.append([ident + ["Time(datetime)"], f"raise {type(e).__name__}"])
+                continue
+            t0 = Time(float(F(4903089, 2) + d), val2=float(F(us, DAY_US)), fmt="jd", scale=scale)
+            for fmt in ALL:
+                try:
+                    v = getattr(t0, fmt)
+                except Exception as e:
+                    out.append([ident + [f".{fmt}"], f"raise {type(e).__name__}"])
+                    continue
+                out.append([ident + [f".{fmt}"], _canon(tuple(v) if fmt == "gps_ws" else v)])
+                try:
+                    if fmt == "gps_ws":
+                        t1 = Time(float(v.week), val2=float(v.seconds), fmt=fmt, scale=scale)
+                        t2 = Time([float(v.week)], val2=[float(v.seconds)], fmt=fmt, scale=scale)
+                    else:
+                        x = v.item() if isinstance(v, np.generic) and fmt not in TEXT else (str(v) if fmt in TEXT else v)
+                        t1 = Time(x, fmt=fmt, scale=scale)
+                        t2 = Time([x], fmt=fmt, scale=scale)
+                    out.append([ident + [f"Time(.{fmt})"], [_canon(t1.jd1), _canon(t1.jd2), _canon(np.asarray(t2.jd1, dtype=float)), _canon(np.asarray(t2.jd2, dtype=float))]])
+                except Exception as e:
+                    out.append([ident + [f"Time(.{fmt})"], f"raise {type(e).__name__}"])
+    return out
+
+
+def ambient_state(ctx, epochs):
+    """the results must not depend on the time zone, the locale or the hash seed of the process: every constructor and
+    read-out on a few hundred epochs (daylight-saving changes of Europe, the US and the southern hemisphere among them) in
+    child interpreters started with TZ / LC_ALL / PYTHONHASHSEED set, bit for bit as in the UTC child"""
+    from . import ambient
+
+    rng = ctx.rng
+    D = lambda y, m, d: (datetime(y, m, d) - DT2000).days
+    H = 3600 * 10**6
+    dst = [(D(2021, 3, 28), 2 * H + H // 2), (D(2021, 3, 28), 1 * H + H // 2), (D(2021, 10, 31), 2 * H + H // 2), (D(2021, 10, 31), 1 * H),
+           (D(2021, 3, 14), 2 * H + H // 2), (D(2021, 11, 7), 1 * H + H // 2), (D(2021, 9, 26), 3 * H + H // 4), (D(2021, 4, 4), 3 * H + H // 2),
+           (D(1999, 12, 31), DAY_US - 1), (D(2000, 1, 1), 0), (D(2016, 12, 31), DAY_US - 10**6), (D(1980, 1, 6), 0), (D(1970, 1, 1), 0),
+           (D(1969, 12, 31), DAY_US - 1), (D(2038, 1, 19), 3 * H + 14 * 60 * 10**6 + 8 * 10**6), (D(1900, 1, 1), 0), (D(2099, 12, 31), 23 * H)]
+    eps = dst + rng.sample(epochs, min(len(epochs), ctx.budget(40, 600)))
+    payload = {"scales": ["utc", "gps", "tt"] if ctx.budget(0, 1) == 0 else SCALES, "epochs": [[int(d), int(us)] for d, us in eps]}
+
+    def describe(item, ref, val, env):
+        scale, d, us, what = item
+        return (f"with {' '.join(k + '=' + v for k, v in env.items())} {what} of the {scale} epoch {DT2000 + timedelta(days=d, microseconds=us)} "
+                f"is {val!r}; in a UTC process it is {ref!r}")
+
+    n = ambient.compare(ctx, "harness.c02:ambient_slice", payload, describe=describe)
+    ctx.extra["ambient_items_compared"] = n
+    ctx.traces += n
 
 
 def replay(payload):
